@@ -1513,6 +1513,265 @@ fn round_reentrant(seed: u64, tot: &Mutex<Tot>, prop: &str) {
 }
 
 // ---------------------------------------------------------------------------------------------
+// dropspin: the last strong references of an actor are dropped on other OS threads while the actor is actively going round
+// its loop (an on_run that keeps returning Ok(true) after a yield or a very short timer). The two channels of an ActorRef do
+// not close at the same instant; whatever the loop observes in between, "loss of all strong references" must end the actor
+// through on_stop(killed=false) with a Completed result (C04, C05, C07).
+// ---------------------------------------------------------------------------------------------
+mod sp {
+    use rsactor::{Actor, ActorRef, ActorWeak, Message};
+    use std::sync::atomic::{AtomicU64, Ordering};
+    use std::sync::Arc;
+    pub struct S {
+        pub mode: u8,
+        pub stops: Arc<AtomicU64>,
+        pub stop_killed: Arc<AtomicU64>,
+    }
+    pub struct Args {
+        pub mode: u8,
+        pub stops: Arc<AtomicU64>,
+        pub stop_killed: Arc<AtomicU64>,
+    }
+    pub struct Ping;
+    impl Actor for S {
+        type Args = Args;
+        type Error = String;
+        async fn on_start(a: Args, _: &ActorRef<Self>) -> Result<Self, String> {
+            Ok(S { mode: a.mode, stops: a.stops, stop_killed: a.stop_killed })
+        }
+        async fn on_run(&mut self, _: &ActorWeak<Self>) -> Result<bool, String> {
+            match self.mode {
+                0 => Ok(false),
+                1 => {
+                    tokio::task::yield_now().await;
+                    Ok(true)
+                }
+                _ => {
+                    tokio::time::sleep(std::time::Duration::from_micros(50)).await;
+                    Ok(true)
+                }
+            }
+        }
+        async fn on_stop(&mut self, _: &ActorWeak<Self>, killed: bool) -> Result<(), String> {
+            self.stops.fetch_add(1, Ordering::SeqCst);
+            if killed {
+                self.stop_killed.fetch_add(1, Ordering::SeqCst);
+            }
+            Ok(())
+        }
+    }
+    impl Message<Ping> for S {
+        type Reply = u8;
+        async fn handle(&mut self, _: Ping, _: &ActorRef<Self>) -> u8 {
+            1
+        }
+    }
+}
+
+fn round_dropspin(seed: u64, hb: &Heartbeat, tot: &Mutex<Tot>, prop: &str) {
+    use sp::*;
+    let mut r = Rng::new(seed);
+    let workers = 2 + r.below(3) as usize;
+    let rt = tokio::runtime::Builder::new_multi_thread().worker_threads(workers).enable_time().build().unwrap();
+    let k = 4 + r.below(5) as usize;
+    let bucket0 = hb.now_bucket();
+    let mut viol: Vec<(String, String)> = vec![];
+    let mut actors = vec![];
+    let mut groups: Vec<Vec<rsactor::ActorRef<S>>> = vec![vec![], vec![]];
+    rt.block_on(async {
+        for i in 0..k {
+            let stops = Arc::new(AtomicU64::new(0));
+            let sk = Arc::new(AtomicU64::new(0));
+            let mode = if i % 4 == 3 { 0 } else { 1 + r.below(2) as u8 };
+            let (a, jh) = rsactor::spawn_with_mailbox_capacity::<S>(Args { mode, stops: stops.clone(), stop_killed: sk.clone() }, 1 + r.below(4) as usize);
+            let _ = tokio::time::timeout(Duration::from_secs(10), a.ask(Ping)).await;
+            // two strong references per actor, dropped by two different threads at about the same time
+            groups[0].push(a.clone());
+            groups[1].push(a);
+            actors.push((mode, stops, sk, jh));
+        }
+    });
+    let go = Arc::new(AtomicBool::new(false));
+    let mut ths = vec![];
+    for (gi, g) in groups.into_iter().enumerate() {
+        let go = go.clone();
+        let gap = r.below(40);
+        ths.push(std::thread::spawn(move || {
+            while !go.load(Ordering::Acquire) {
+                std::hint::spin_loop();
+            }
+            for a in g {
+                drop(a);
+                if gi == 1 {
+                    spin(gap);
+                }
+            }
+        }));
+    }
+    go.store(true, Ordering::Release);
+    for t in ths {
+        let _ = t.join();
+    }
+    let mut n_ok = 0u64;
+    rt.block_on(async {
+        for (i, (mode, stops, sk, jh)) in actors.into_iter().enumerate() {
+            let what = format!("actor {i} (on_run mode {mode}: {}) whose hooks all return Ok lost its last two strong references on two other threads", ["returns Ok(false)", "yields, then Ok(true)", "50 us timer, then Ok(true)"][mode as usize]);
+            match tokio::time::timeout(Duration::from_secs(10), jh).await {
+                Err(_) => viol.push(("C07.ends".into(), format!("[dropspin] {what}; its JoinHandle had not resolved 10 s later (on_stop ran {} time(s))", stops.load(Ordering::SeqCst)))),
+                Ok(Err(e)) => viol.push(("C05.result".into(), format!("[dropspin] {what}; the JoinHandle reports {} instead of Completed {{ killed: false }}; on_stop ran {} time(s)", if e.is_panic() { format!("a panic ({})", panic_payload_to_string(e.into_panic().as_ref())) } else { "a cancelled task".to_string() }, stops.load(Ordering::SeqCst)))),
+                Ok(Ok(res)) => {
+                    let st = stops.load(Ordering::SeqCst);
+                    let good = matches!(res, rsactor::ActorResult::Completed { killed: false, .. });
+                    if !good {
+                        viol.push(("C05.result".into(), format!("[dropspin] {what}; result: completed={} killed={}", res.is_completed(), res.was_killed())));
+                    } else if st != 1 || sk.load(Ordering::SeqCst) != 0 {
+                        viol.push(("C04.stop_iff".into(), format!("[dropspin] {what}; on_stop ran {st} time(s), {} of them with killed=true", sk.load(Ordering::SeqCst))));
+                    } else {
+                        n_ok += 1;
+                    }
+                }
+            }
+        }
+    });
+    rt.shutdown_timeout(Duration::from_secs(2));
+    let stalled = hb.max_late_since(bucket0) > STALL_US;
+    let mut t = tot.lock().unwrap();
+    t.rounds += 1;
+    t.hashes.insert(mix(workers as u64, k as u64));
+    for p in ["C04", "C05", "C07"] {
+        *t.nontrivial.entry(p.into()).or_default() += 1;
+    }
+    *t.obl.entry("C05.result").or_default() += n_ok;
+    *t.obl.entry("C04.stop_iff").or_default() += n_ok;
+    *t.obl.entry("C07.ends").or_default() += n_ok;
+    if stalled && viol.iter().any(|v| v.0 == "C07.ends") {
+        t.inconclusive.push(format!("dropspin round {seed}: machine stalled"));
+        viol.retain(|v| v.0 != "C07.ends");
+    }
+    for (c, m) in viol {
+        if prop == "all" || c.starts_with(prop) || (prop == "C12" && c != "C07.ends") {
+            t.viol.push((c, m, seed, "dropspin".into()));
+        }
+    }
+}
+
+// ---------------------------------------------------------------------------------------------
+// metricsrace (C20): reader threads spin on the metrics API while a short series of asks is handled, the last handler being the
+// slowest; nothing is sent afterwards. After stop() and join the final values, read through a strong and a weak-upgraded handle,
+// must account for every handler that was entered - also the one that finished while a reader was in the middle of a read.
+// ---------------------------------------------------------------------------------------------
+#[cfg(feature = "f_metrics")]
+fn round_metricsrace(seed: u64, hb: &Heartbeat, tot: &Mutex<Tot>, prop: &str) {
+    use ab::*;
+    let mut r = Rng::new(seed);
+    let workers = 2 + r.below(3) as usize;
+    let rt = tokio::runtime::Builder::new_multi_thread().worker_threads(workers).enable_time().build().unwrap();
+    let n = 3 + r.below(8);
+    let nreaders = 2 + r.below(3) as usize;
+    let last_ms = 1 + r.below(3);
+    let bucket0 = hb.now_bucket();
+    let handled = Arc::new(AtomicU64::new(0));
+    let (a, jh) = {
+        let _g = rt.enter();
+        rsactor::spawn::<A>(Args { handled: handled.clone(), start_ms: 0, ticks: false })
+    };
+    let stop = Arc::new(AtomicBool::new(false));
+    let mut readers = vec![];
+    for k in 0..nreaders {
+        let (a2, stop2) = (a.clone(), stop.clone());
+        readers.push(std::thread::spawn(move || {
+            let mut mono_bad = None;
+            let mut last = 0u64;
+            let mut reads = 0u64;
+            while !stop2.load(Ordering::Relaxed) {
+                let c = match k % 3 {
+                    0 => a2.metrics().message_count,
+                    1 => a2.message_count(),
+                    _ => {
+                        let _ = a2.max_processing_time();
+                        let _ = a2.avg_processing_time();
+                        a2.message_count()
+                    }
+                };
+                if c < last {
+                    mono_bad = Some((last, c));
+                }
+                last = c;
+                reads += 1;
+            }
+            (mono_bad, reads)
+        }));
+    }
+    let mut viol: Vec<(String, String)> = vec![];
+    let mut ok_asks = 0u64;
+    let a3 = a.clone();
+    let joined = rt.block_on(async move {
+        for i in 0..n {
+            let ms = if i + 1 == n { last_ms } else { 0 };
+            if let Ok(Ok(_)) = tokio::time::timeout(Duration::from_secs(10), a3.ask(Work(i, ms))).await {
+                ok_asks += 1;
+            }
+        }
+        let _ = a3.stop().await;
+        (tokio::time::timeout(Duration::from_secs(10), jh).await.is_ok(), ok_asks)
+    });
+    stop.store(true, Ordering::Relaxed);
+    let mut reads = 0;
+    for t in readers {
+        if let Ok((mono, n)) = t.join() {
+            reads += n;
+            if let Some((x, y)) = mono {
+                viol.push(("C20.monotone".into(), format!("[metricsrace] message_count went from {x} to {y} in consecutive reads of one reader thread")));
+            }
+        }
+    }
+    let (joined, ok_asks) = joined;
+    let entered = handled.load(Ordering::SeqCst);
+    let weak = rsactor::ActorRef::downgrade(&a);
+    let stalled = hb.max_late_since(bucket0) > STALL_US;
+    if joined && ok_asks == n {
+        for (via, h) in [("the strong handle", Some(a.clone())), ("a weak-upgraded handle", weak.upgrade())] {
+            let Some(h) = h else {
+                viol.push(("C20.readable".into(), format!("[metricsrace] upgrade() failed although a strong handle is still held")));
+                continue;
+            };
+            let m = h.metrics();
+            if m.message_count != entered {
+                viol.push(("C20.count".into(), format!("[metricsrace] {entered} handlers were entered ({n} asks, all answered, while {nreaders} threads were reading the metrics; nothing was sent afterwards); after stop() and join, message_count read through {via} is {}", m.message_count)));
+            }
+            if m.max_processing_time < Duration::from_millis(last_ms) {
+                viol.push(("C20.max_lower_bound".into(), format!("[metricsrace] the last handler slept {last_ms} ms but max_processing_time read through {via} after the actor ended is {:?}", m.max_processing_time)));
+            }
+            if m.avg_processing_time > m.max_processing_time {
+                viol.push(("C20.avg_le_max".into(), format!("[metricsrace] avg {:?} > max {:?} after the actor ended", m.avg_processing_time, m.max_processing_time)));
+            }
+            if m.message_count != h.message_count() || m.max_processing_time != h.max_processing_time() || m.avg_processing_time != h.avg_processing_time() {
+                viol.push(("C20.snapshot_agrees".into(), format!("[metricsrace] snapshot {:?} disagrees with the individual accessors after the actor ended", m)));
+            }
+        }
+    }
+    drop(a);
+    rt.shutdown_timeout(Duration::from_secs(2));
+    let mut t = tot.lock().unwrap();
+    t.rounds += 1;
+    t.hashes.insert(mix(n * 8 + nreaders as u64, last_ms * 8 + workers as u64));
+    *t.nontrivial.entry("C20".into()).or_default() += 1;
+    if !(joined && ok_asks == n) {
+        if !stalled {
+            t.inconclusive.push(format!("metricsrace round {seed}: workload did not complete (joined={joined}, asks ok {ok_asks}/{n})"));
+        }
+        return;
+    }
+    *t.obl.entry("C20.count").or_default() += 2;
+    *t.obl.entry("C20.concurrent_reads").or_default() += reads;
+    for (c, m) in viol {
+        if prop == "all" || c.starts_with(prop) {
+            t.viol.push((c, m, seed, "metricsrace".into()));
+        }
+    }
+}
+
+// ---------------------------------------------------------------------------------------------
 // abort: the actor's JoinHandle is resolved by `JoinHandle::abort()` while strong references exist.
 // Whatever made the handle resolve, "is_alive() is false once its JoinHandle has resolved, after which
 // every send fails" (C11) and "every ask still pending on it and every later ask returns an Err" (C03).
@@ -2247,6 +2506,27 @@ pub fn cmd_mt(a: &Args) -> i32 {
                     }
                 }
             }
+            "dropspin" => {
+                let mut n = 0u64;
+                while tp.elapsed() < per_profile {
+                    n += 1;
+                    round_dropspin(mix(base, ((pi as u64) << 56) ^ n), &hb, &tot, &prop);
+                    if tot.lock().unwrap().viol.len() > 5 {
+                        break;
+                    }
+                }
+            }
+            #[cfg(feature = "f_metrics")]
+            "metricsrace" => {
+                let mut n = 0u64;
+                while tp.elapsed() < per_profile {
+                    n += 1;
+                    round_metricsrace(mix(base, ((pi as u64) << 56) ^ n), &hb, &tot, &prop);
+                    if tot.lock().unwrap().viol.len() > 5 {
+                        break;
+                    }
+                }
+            }
             "abort" => {
                 let mut n = 0u64;
                 while tp.elapsed() < per_profile {
@@ -2313,7 +2593,7 @@ pub fn cmd_mt(a: &Args) -> i32 {
     #[cfg(feature = "f_testutils")]
     {
         let d = rsactor::dead_letter_count() - dl0;
-        if !tainted.load(Ordering::Relaxed) && profiles.iter().all(|p| p != "spawnstorm" && p != "tightrace" && p != "starve" && p != "mutualask" && p != "abort" && p != "reentrant") {
+        if !tainted.load(Ordering::Relaxed) && profiles.iter().all(|p| p != "spawnstorm" && p != "tightrace" && p != "starve" && p != "mutualask" && p != "abort" && p != "reentrant" && p != "dropspin" && p != "metricsrace") {
             *t.obl.entry("C13.counter").or_default() += 1;
             t.extra.insert("dead_letter_count_delta".into(), d);
             let fl = t.failures;
